@@ -25,13 +25,22 @@ const isFloat32 = 4
 const isFloat64 = 8
 
 func readNBytes(src *bufio.Reader, n int) []byte {
-	ret := make([]byte, n)
+	if n < 0 {
+		panic(fmt.Errorf("Invalid length: %d", n))
+	}
+	// The length comes from the input and may be wrong: grow the buffer with
+	// the bytes actually read instead of trusting it for the allocation.
+	c := n
+	if c > 4096 {
+		c = 4096
+	}
+	ret := make([]byte, 0, c)
 	for i := 0; i < n; i++ {
 		ch, e := src.ReadByte()
 		if e != nil {
 			panic(fmt.Errorf("Tried to Read %d Bytes.. But hit end of file", n))
 		}
-		ret[i] = ch
+		ret = append(ret, ch)
 	}
 	return ret
 }
@@ -223,6 +232,9 @@ func decodeStringToDataUrl(src *bufio.Reader, mimeType string) []byte {
 	}
 	length := decodeIntAdditionalType(src, minor)
 	l := int(length)
+	// Read the payload first: this validates the length before it is used
+	// to size the result.
+	pbs := readNBytes(src, l)
 	enc := base64.StdEncoding
 	lEnc := enc.EncodedLen(l)
 	result := make([]byte, len("\"data:;base64,\"")+len(mimeType)+lEnc)
@@ -233,7 +245,6 @@ func decodeStringToDataUrl(src *bufio.Reader, mimeType string) []byte {
 	dest = dest[u:]
 	u = copy(dest, ";base64,")
 	dest = dest[u:]
-	pbs := readNBytes(src, l)
 	enc.Encode(dest, pbs)
 	dest = dest[lEnc:]
 	dest[0] = '"'
